@@ -54,9 +54,11 @@ def run(chk):
             kern[s] = kp.KernSpineImporter().import_token(s)
         except Exception:
             kern[s] = None
+    from harness import spec as _spec
+    spec_desc = _spec.documented_descendants()
     shared_set = set()
     for p in SHARED:
-        shared_set |= {c.name for c in TC.nodes(TC[p])} | {p}
+        shared_set |= spec_desc[p]
     reqs, obs = [], []
     for h in headers:
         own = OWN.get(h, 'OTHER')
